@@ -32,7 +32,15 @@ def run(ctx):
         for walk in (["absent", "v1", "bad", "v2"], ["bad", "v2", "absent", "v1"]):
             beh = [dict(ops=[E("sec", sec, "v1"), E("ing", 1, ta), E("ing", 2, tb)], fault="none")]
             beh += [dict(ops=[E("sec", sec, v)], fault="none") for v in walk]
-            hs.append(ctl.with_cluster("directed-samesecret-%d" % k, beh, opt=dict(opts[k % 2])))
+            h = ctl.with_cluster("directed-samesecret-%d" % k, beh, opt=dict(opts[k % 2]))
+            if k % 2 == 1:
+                # another namespace uses the same local secret name for another certificate, in an older Ingress: the hosts of
+                # namespace d still get the secret of namespace d
+                foreign = dict(label="foreign", rules=[U.R("e.local", U.P("/", "s1"))], tls=[U.T(sec, "e.local")])
+                older = U.op_ing(1, foreign, name="older", ns="e")
+                older["created"] = 0
+                h["steps"][0]["ops"] = [U.op_svc("s1", ns="e"), U.op_eps("s1", "e1", ns="e"), U.op_sec(sec, "crt:foreign", ns="e"), older] + h["steps"][0]["ops"]
+            hs.append(h)
             k += 1
     for h in hs:
         if h["opt"].get("defaultcrt"):
